@@ -50,7 +50,13 @@ impl PartialEq for PatV {
 /// storage_step <append|fetch_or_append|lookup> <pattern of 0/1: which stored values equal the argument>
 fn storage_step(op: &str, pat: &str) -> String {
     use rspirv::sr::storage::Storage;
-    let flags: Vec<bool> = if pat == "-" { vec![] } else { pat.chars().map(|c| c == '1').collect() };
+    let flags: Vec<bool> = if pat == "-" {
+        vec![]
+    } else if let Some(n) = pat.strip_prefix('n') {
+        vec![false; n.parse::<usize>().unwrap_or(0)]
+    } else {
+        pat.chars().map(|c| c == '1').collect()
+    };
     let mut s: Storage<PatV> = Storage::new();
     let mut toks = Vec::new();
     for (i, f) in flags.iter().enumerate() {
